@@ -289,7 +289,16 @@ func (g *gen) pre() *Node {
 
 func (g *gen) quote(c ctx) *Node {
 	n := g.el("blockquote")
-	switch g.int(0, 3, "bq") {
+	switch g.int(0, 4, "bq") {
+	case 4:
+		// text standing directly in the quote next to its paragraphs: a lead-in in front, an attribution behind
+		if g.bool("bqLead") {
+			n.Kids = append(n.Kids, g.text())
+		}
+		n.Kids = append(n.Kids, g.el("p", g.inline()...))
+		if len(n.Kids) == 1 || g.bool("bqTail") {
+			n.Kids = append(n.Kids, g.text(), g.el("cite", g.text()))
+		}
 	case 0:
 		n.Kids = g.inline()
 	case 1:
